@@ -36,27 +36,99 @@ Theorem add_effect_order :
   filter (fun a => negb (fac_is_check a)) add_factory_stages = [F_insert; F_dispatch].
 Proof. split; reflexivity. Qed.
 
+(* ---------- the general theorem: for EVERY order of the stages in which no check stands behind an effect
+   (and a teardown callback is registered only where it has been checked to be callable), a call that fails
+   leaves the context exactly as it was.  A rearrangement of the checks among themselves, or of the effects
+   among themselves, therefore keeps the property; moving a check behind an effect does not. ---------- *)
+Lemma effects_only_succeed : forall l x v types_ name desc cb,
+  forallb (fun a => negb (is_check a)) l = true ->
+  (cb = BadCb -> ~ In A_register_callback l) ->
+  snd (run_add l x v types_ name desc cb) = OK.
+Proof.
+  induction l as [|a l IH]; intros x v types_ name desc cb Hl Hcb; [reflexivity|].
+  cbn [forallb] in Hl. apply andb_true_iff in Hl. destruct Hl as [Ha Hl].
+  assert (Hcb' : cb = BadCb -> ~ In A_register_callback l) by (intros E I; apply (Hcb E); right; exact I).
+  destruct a; cbn [is_check negb] in Ha; try discriminate; cbn [run_add].
+  - destruct v; apply IH; assumption.
+  - destruct cb as [|i|]; try (apply IH; assumption).
+    exfalso. apply (Hcb eq_refl). left; reflexivity.
+  - apply IH; assumption.
+Qed.
+
+Theorem failed_add_changes_nothing_for_any_order : forall l x v types_ name desc cb e,
+  checks_first is_check l = true ->
+  (cb = BadCb -> In A_callback_callable l \/ ~ In A_register_callback l) ->
+  snd (run_add l x v types_ name desc cb) = Err e ->
+  fst (run_add l x v types_ name desc cb) = x.
+Proof.
+  induction l as [|a l IH]; intros x v types_ name desc cb e Hc Hcb; [discriminate|].
+  destruct (is_check a) eqn:Ea.
+  - (* a check: it fails and nothing has changed, or the rest runs on the same context *)
+    assert (Hc' : checks_first is_check l = true) by (cbn [checks_first] in Hc; rewrite Ea in Hc; exact Hc).
+    destruct a; cbn [is_check] in Ea; try discriminate; cbn [run_add].
+    + destruct (negb (forallb ty_is_class types_)); [reflexivity|]. apply IH; auto.
+      intro E. destruct (Hcb E) as [[H|H]|H]; [discriminate|left; exact H|right; intro I; apply H; right; exact I].
+    + destruct v; [|reflexivity]. apply IH; auto.
+      intro E. destruct (Hcb E) as [[H|H]|H]; [discriminate|left; exact H|right; intro I; apply H; right; exact I].
+    + destruct (negb (valid_name name)); [reflexivity|]. apply IH; auto.
+      intro E. destruct (Hcb E) as [[H|H]|H]; [discriminate|left; exact H|right; intro I; apply H; right; exact I].
+    + destruct cb as [|i|]; cbn; try reflexivity; apply IH; auto; intro E; discriminate.
+    + destruct (existsb (taken (res x) name) types_); [reflexivity|]. apply IH; auto.
+      intro E. destruct (Hcb E) as [[H|H]|H]; [discriminate|left; exact H|right; intro I; apply H; right; exact I].
+  - (* an effect: only effects follow, and those do not fail *)
+    intro Herr. exfalso.
+    assert (Hall : forallb (fun b => negb (is_check b)) (a :: l) = true).
+    { cbn [checks_first] in Hc. rewrite Ea in Hc. cbn [forallb]. rewrite Ea. exact Hc. }
+    rewrite effects_only_succeed in Herr; [discriminate|exact Hall|].
+    intros E I. destruct (Hcb E) as [H|H]; [|exact (H I)].
+    (* the callable check is a check: it cannot occur in an effects-only list *)
+    rewrite forallb_forall in Hall. specialize (Hall _ H). discriminate.
+Qed.
+
+Lemma fac_effects_only_succeed : forall l x f kind name types desc,
+  forallb (fun a => negb (fac_is_check a)) l = true ->
+  snd (run_addfac l x f kind name types desc) = OK.
+Proof.
+  induction l as [|a l IH]; intros x f kind name types desc Hl; [reflexivity|].
+  cbn [forallb] in Hl. apply andb_true_iff in Hl. destruct Hl as [Ha Hl].
+  destruct a; cbn [fac_is_check negb] in Ha; try discriminate; cbn [run_addfac]; apply IH; assumption.
+Qed.
+
+Theorem failed_add_factory_changes_nothing_for_any_order : forall l x f kind name types desc e,
+  checks_first fac_is_check l = true ->
+  snd (run_addfac l x f kind name types desc) = Err e ->
+  fst (run_addfac l x f kind name types desc) = x.
+Proof.
+  induction l as [|a l IH]; intros x f kind name types desc e Hc; [discriminate|].
+  destruct (fac_is_check a) eqn:Ea.
+  - assert (Hc' : checks_first fac_is_check l = true) by (cbn [checks_first] in Hc; rewrite Ea in Hc; exact Hc).
+    destruct a; cbn [fac_is_check] in Ea; try discriminate; cbn [run_addfac].
+    + destruct (negb (valid_name name)); [reflexivity|]. apply IH; auto.
+    + destruct types; [reflexivity|]. apply IH; auto.
+    + destruct (existsb ty_is_none types); [reflexivity|]. apply IH; auto.
+    + destruct (existsb (taken (facs x) name) types); [reflexivity|]. apply IH; auto.
+  - intro Herr. exfalso.
+    assert (Hall : forallb (fun b => negb (fac_is_check b)) (a :: l) = true).
+    { cbn [checks_first] in Hc. rewrite Ea in Hc. cbn [forallb]. rewrite Ea. exact Hc. }
+    rewrite fac_effects_only_succeed in Herr; [discriminate|exact Hall].
+Qed.
+
 (* the interpreter on a failing check: whatever the stages, an error from a check stage that is reached
    before any effect stage returns the context unchanged -- with the lists of this run that is every error *)
 Theorem failed_run_add_changes_nothing : forall x v types_ name desc cb e,
   snd (run_add add_resource_stages x v types_ name desc cb) = Err e ->
   fst (run_add add_resource_stages x v types_ name desc cb) = x.
 Proof.
-  intros x v types_ name desc cb e. cbn [run_add add_resource_stages].
-  destruct (negb (forallb ty_is_class types_)); [reflexivity|].
-  destruct v as [n|]; [|reflexivity].
-  destruct (negb (valid_name name)); [reflexivity|].
-  destruct cb as [|i|]; cbn; try reflexivity;
-    destruct (existsb (taken (res x) name) types_); cbn; try reflexivity; discriminate.
+  intros x v types_ name desc cb e H.
+  apply (failed_add_changes_nothing_for_any_order add_resource_stages x v types_ name desc cb e);
+    [reflexivity | intros _; left; cbv; tauto | exact H].
 Qed.
 
 Theorem failed_add_factory_changes_nothing : forall x f kind name types desc e,
   snd (run_addfac add_factory_stages x f kind name types desc) = Err e ->
   fst (run_addfac add_factory_stages x f kind name types desc) = x.
 Proof.
-  intros x f kind name types desc e. cbn [run_addfac add_factory_stages].
-  destruct (negb (valid_name name)); [reflexivity|].
-  destruct types as [|t ts]; [reflexivity|].
-  destruct (existsb ty_is_none (t :: ts)); [reflexivity|].
-  destruct (existsb (taken (facs x) name) (t :: ts)); cbn; try reflexivity; discriminate.
+  intros x f kind name types desc e H.
+  apply (failed_add_factory_changes_nothing_for_any_order add_factory_stages x f kind name types desc e);
+    [reflexivity | exact H].
 Qed.
